@@ -15,13 +15,17 @@
       slots last) — modelled on the tree the text denotes (`Many.walk`) — leaves in slot `j`, for every
       duplicate-free document and every set of paths, exactly what looking path `j` up alone finds
       (`Many.lookJ`: first member with an equal key, n-th element); `Lemmas/WalkProof.lean`.
-  Not proved: completeness (the walker does not fail when every path resolves — the check's oracle
-  `fails-although-every-path-resolves`); the scanning of the text itself (`skip_one`, `parse_str`: C02,
-  C10) — the check compares the walker model with get_many and get_many_unchecked slot by slot, and
-  `lookJ` on the tree with `Spec.lookup` on the text.
+    * **completeness** (`get_many_succeeds_when_every_path_resolves`): when every path resolves by itself
+      the walker does not fail — the kind of the children agrees with the value, the `visited` count
+      reaches the number of index children also when the walk stops early (`Lemmas/WalkComplete.lean`,
+      trie shape `Lemmas/TrieWF.lean`) — and every slot is filled.
+  Not proved: the scanning of the text itself (`skip_one`, `parse_str`: C02, C10) — the check compares
+  the walker model with get_many and get_many_unchecked slot by slot, and `lookJ` on the tree with
+  `Spec.lookup` on the text.
 -/
 import SonicModel.Lemmas.ManyProof
 import SonicModel.Lemmas.WalkProof
+import SonicModel.Lemmas.WalkComplete
 namespace Sonic.Thm.C11
 open Sonic Spec Many
 
@@ -56,6 +60,13 @@ theorem get_many_slots_are_single_lookups (paths : List (List Step)) (doc : Json
     (out : List (Option Json)) (h : getMany paths doc = some out) :
     out.length = paths.length ∧ ∀ j : Nat, j < paths.length → out[j]? = some (lookJ doc (paths[j]?.getD [])) :=
   getMany_refines_lookup paths doc hdf out h
+
+/-- **`get_many` succeeds with all slots filled whenever every path resolves individually** -/
+theorem get_many_succeeds_when_every_path_resolves (paths : List (List Step)) (doc : Json) (hdf : DupFree doc)
+    (hres : ∀ j : Nat, j < paths.length → lookJ doc (paths[j]?.getD []) ≠ none) :
+    ∃ out, getMany paths doc = some out ∧ out.length = paths.length ∧
+      ∀ j : Nat, j < paths.length → ∃ v, out[j]? = some (some v) ∧ lookJ doc (paths[j]?.getD []) = some v :=
+  getMany_complete paths doc hdf hres
 
 /-- … so repeated paths receive identical results -/
 theorem repeated_paths_get_identical_results (paths : List (List Step)) (doc : Json) (hdf : DupFree doc)
